@@ -116,6 +116,29 @@ exp = "MAP\\n" + "".join("# f%d\\n" % i for i in range(n)) + ("NAME 'leaf'" if n
 return got == exp
 '''
 
+DEPTH2 = '''
+# root includes `sib` leaf files and then a chain of n files: the limit counts nesting depth, so the chain still expands iff n <= 5
+table = {}
+for i in range(8):
+    table["/r/f%d.map" % i] = "# f%d\\n" % i + (("INCLUDE 'f%d.map'" % (i + 1)) if i + 1 < n else "NAME 'leaf'")
+for j in range(4):
+    table["/r/s%d.map" % j] = "# sibling %d" % j
+root = "MAP\\n" + "".join("INCLUDE 's%d.map'\\n" % j for j in range(sib)) + "INCLUDE 'f0.map'\\nEND"
+p = StubParser()
+p.table = table
+try:
+    got = p.load_includes(root, fn="/r/root.map")
+    ok = True
+except ValueError:
+    ok = False
+if n > 5:
+    return not ok
+if not ok:
+    return False
+exp = "MAP\\n" + "".join("# sibling %d\\n" % j for j in range(sib)) + "".join("# f%d\\n" % i for i in range(n)) + "NAME 'leaf'\\nEND"
+return got == exp
+'''
+
 PATH = '''
 # relative names resolve against the root file's directory (fn given) or the working directory (plain strings),
 # whatever the process's current directory is; absolute names are untouched
@@ -252,6 +275,8 @@ def obligations(tier, seed):
                             "stubs": ["open_file table"], "functions": ["Parser.load_includes", "Parser._get_include_filename"]}))
     obs.append(Ob(name="C15-DEPTH", source=PRELUDE + harness("h", [("n", "int"), ("cyc", "bool"), ("back", "int")], "(n >= 0) & (n <= 8) & (back >= 0) & (back < 8) & (back < n)", DEPTH),
                   pct=600, timeout=700, meta={"desc": "chain length 0..8 and cycles: expands iff <= 5 deep, else ValueError", "functions": ["Parser.load_includes"]}))
+    obs.append(Ob(name="C15-DEPTH2", source=PRELUDE + harness("h", [("n", "int"), ("sib", "int")], "(n >= 1) & (n <= 7) & (sib >= 0) & (sib <= 4)", DEPTH2),
+                  pct=600, timeout=700, meta={"desc": "0..4 sibling includes before a chain of 1..7: expands iff the chain is <= 5 deep (depth, not directive count)", "functions": ["Parser.load_includes"]}))
     obs.append(Ob(name="C15-PATH", source=PRELUDE + harness("h", [("di", "int"), ("cw", "int"), ("ri", "int"), ("have_fn", "bool"), ("absolute", "bool")],
                                                               conj([tag("di", 3), tag("cw", 3), tag("ri", 4)]), PATH),
                   pct=600, timeout=700, meta={"desc": "relative names resolve against the root file's directory / cwd; absolute untouched", "stubs": ["os.getcwd"], "functions": ["Parser.load_includes"]}))
